@@ -28,6 +28,7 @@ from . import cpu_count, get_context
 from . import util
 from .common import (
     TERM_SIGNAL, human_status, pickle_loads, reset_signals, restart_state,
+    _should_have_exited,
 )
 from .compat import get_errno, mem_rss, send_offset
 from .einfo import ExceptionInfo
@@ -377,6 +378,12 @@ class Worker:
                         finally:
                             del(tb)
                     completed += 1
+                    if _should_have_exited[0]:
+                        # a termination signal arrived while the task was
+                        # running; the SystemExit it raised was reported as
+                        # the task's outcome (or swallowed by the task):
+                        # honour it now instead of taking further jobs.
+                        raise SystemExit(EX_FAILURE)
                     if max_memory_per_child > 0:
                         used_kb = mem_rss()
                         if used_kb <= 0:
@@ -401,7 +408,8 @@ class Worker:
         """ Returns true if all messages sent out have been received and
         consumed within a reasonable amount of time """
 
-        if not self.on_ready_counter:
+        if not self.on_ready_counter or _should_have_exited[0]:
+            # told to terminate: do not linger waiting for the parent.
             return False
 
         for retry in range(GUARANTEE_MESSAGE_CONSUMPTION_RETRY_LIMIT):
@@ -424,6 +432,9 @@ class Worker:
 
         # Make sure all exiting signals call finally: blocks.
         # This is important for the semaphore to be released.
+        # (a fresh process has not been told to exit yet, whatever the
+        # flag inherited from the parent says.)
+        _should_have_exited[0] = False
         reset_signals(full=self.sigprotection)
 
         # install signal handler for soft timeouts.
